@@ -1,6 +1,7 @@
 package checks
 
 import (
+	"context"
 	"errors"
 	"fmt"
 	"runtime"
@@ -199,6 +200,40 @@ func observeDiffCursor(cfg *world.Config, newT, oldT *mast.Mast) (recs []diffRec
 	return
 }
 
+// observeDiffCursorCancelledAt walks a diff cursor whose k-th NextEntry call is made under a context that is
+// already cancelled; whatever that call answers (an entry, an error), the caller goes on with a live context on
+// the same cursor. A call that returned an error has reported nothing, so nothing may be lost or repeated.
+func observeDiffCursorCancelledAt(cfg *world.Config, newT, oldT *mast.Mast, k int) (recs []diffRec, res world.Res) {
+	dead, cancel := context.WithCancel(ctx)
+	cancel()
+	res = guardRes(func() error {
+		dc, err := newT.StartDiff(ctx, oldT)
+		if err != nil {
+			return err
+		}
+		for i := 0; i < 10000; i++ {
+			c := ctx
+			if i == k {
+				c = dead
+			}
+			d, err := dc.NextEntry(c)
+			if err == mast.ErrNoMoreDiffs {
+				return nil
+			}
+			if err != nil {
+				if i == k {
+					continue // the cancelled call; the next one runs under the live context
+				}
+				return err
+			}
+			typ := map[mast.DiffType]string{mast.DiffType_Add: "add", mast.DiffType_Remove: "remove", mast.DiffType_Change: "change"}[d.Type]
+			recs = append(recs, diffRec{keyIndex(cfg, d.Key), typ, valIdx(cfg, d.OldValue, typ != "add"), valIdx(cfg, d.NewValue, typ != "remove")})
+		}
+		return errors.New("diff cursor did not terminate")
+	})
+	return
+}
+
 func sameRecs(a, b []diffRec) bool {
 	if len(a) != len(b) {
 		return false
@@ -249,6 +284,13 @@ func checkEntryDiff(cfg *world.Config, oldT, newT *mast.Mast, oldC, newC world.C
 		out = append(out, explore.Finding{Sig: fmt.Sprintf("C06|DiffCursor|%s|%s", cls, resClass(cr)), What: "StartDiff/NextEntry disagrees with the callback interface / the expected differences", Detail: fmt.Sprintf("old %v new %v: cursor %v (%v) want %v", oldC, newC, cgot, cr, want)})
 	}
 	if full {
+		for k := 0; k <= len(want); k++ {
+			g, r := observeDiffCursorCancelledAt(cfg, newT, oldT, k)
+			if r.Err != nil || r.Panic != nil || !sameRecs(g, want) {
+				out = append(out, explore.Finding{Sig: fmt.Sprintf("C06|DiffCursor|one-call-under-a-cancelled-context|%s|%s", cls, resClass(r)), What: "a diff cursor one of whose NextEntry calls ran under a cancelled context, continued under a live one, does not report exactly the differing keys", Detail: fmt.Sprintf("old %v new %v: call %d cancelled: cursor %v (%v) want %v", oldC, newC, k, g, r, want)})
+				break
+			}
+		}
 		for i := 0; i < len(want); i++ {
 			g, calls, r := observeDiffIter(cfg, newT, oldT, i, -1)
 			if r.Err != nil || r.Panic != nil || calls != i+1 || !sameRecs(g, want[:i+1]) {
@@ -1111,6 +1153,7 @@ func C15(run *report.Run) {
 		subtreesBeforeSharedC15(run, acc, 2, 1500)
 		subtreesBeforeSharedC15(run, acc, 3, 1500)
 		subtreesBeforeSharedC15(run, acc, 4, 1500)
+		chainC15(run, acc)
 		ruler := []uint8{0, 1, 0, 2, 0, 1, 0, 3, 0, 1, 0, 2, 0, 1, 0}
 		wideC15With(run, acc, 1, 2, ruler, 5)
 		wideC15With(run, acc, 3, 2, ruler, 5)
